@@ -121,6 +121,10 @@ func gen(r *vh.Rand) string {
 		return genCl(r)
 	case 9:
 		return genCn(r)
+	case 10, 11, 12, 13:
+		return genEe(r)
+	case 14:
+		return genEh(r)
 	}
 	var k x.Kase
 	x.GenCfg(r, &k)
@@ -133,6 +137,12 @@ func exec(op string) string {
 	switch f[0] {
 	case "rch":
 		return execRch(f)
+	case "ee":
+		return execEe(f)
+	case "eh":
+		certOnce.Do(makeCerts)
+		x.PKIErr()
+		return vh.SafeTimeout(120*time.Second, func() string { return execEh(f) })
 	case "rl":
 		return execRl(f)
 	case "cl":
